@@ -74,7 +74,7 @@ func c06ExArgs() []c06Arg {
 	a := AStack(stackage.Or().Push("p", "q"))
 	return []c06Arg{{`"v"`, "v"}, {`"w w"`, "w w"}, {`""`, ""}, {"nil", nil}, {"42", 42}, {"3.5", 3.5}, {"true", true},
 		{"Stack", stackage.And().Push("x", "y")}, {"AStack", AStack(stackage.Or().Push("z"))}, {"SStack", SStack(stackage.List().Push(1, 2))}, {"*AStack", &a},
-		{"Condition", stackage.Cond("ik", stackage.Lt, 5)}, {"Name(n)", Name("n")}, {"empty Stack", stackage.Not()},
+		{"Condition", stackage.Cond("ik", stackage.Lt, 5)}, {"Name(n)", Name("n")}, {"NamedStr(ns)", NamedStr("ns")}, {"NamedInt(7)", NamedInt(7)}, {"NamedBool(true)", NamedBool(true)}, {"NamedFloat(2.5)", NamedFloat(2.5)}, {"empty Stack", stackage.Not()},
 		{"(*Name)(nil)", (*Name)(nil)}, {"25 Conditions nested in one another", c06DeepCond(25)},
 		{"Stack its own validity policy rejects", stackage.And().Push("x").SetValidityPolicy(func(...any) error { return errPolicyRejects })}, {"[]string{a}", []string{"a"}}, {"[]string{b,c}", []string{"b", "c"}}, {"map", map[string]int{"k": 1}}, {"struct{[]int}", struct{ L []int }{[]int{1}}}}
 }
